@@ -300,5 +300,77 @@ def extra(stats, tier, seed):
                         viol("AsyncioExecutor.submit after shutdown raised %r" % str(e), "shutdown:submit-after:submit", "asyncio")
                 if rec.subs != 1:
                     viol("AsyncioExecutor.submit after shutdown reached the delegate", "shutdown:submit-after:submit", "asyncio")
+            # built WITHOUT a loop (the default, and what .with_asyncio() gives): after shutdown the refusal comes first, whatever
+            # the state of the calling thread's event loop
+            rec = Rec()
+            ex = AsyncioExecutor(rec)
+            ex.shutdown()
+            stats.add([[11, 2]], True, None, ["api:asyncio-noloop"])
+            try:
+                ex.submit(lambda: 9)
+                viol("AsyncioExecutor(loop=None).submit after shutdown returned", "shutdown:submit-after:submit", "asyncio-noloop")
+            except RuntimeError as e:
+                if str(e) != MSG:
+                    viol("AsyncioExecutor(loop=None).submit after shutdown raised %r" % str(e), "shutdown:submit-after:submit", "asyncio-noloop")
         finally:
             loop.close()
+    # 2. a delegate whose shutdown() RAISES: the layer is shut down all the same (flag set, submit refused, a repeated shutdown(wait=True)
+    #    returns), and its worker thread must still exit - not stay parked for ever - although nobody will call its shutdown again
+    import random as _random
+    rng = _random.Random(seed + 11)
+
+    class Faulty(Rec):
+        def shutdown(self, *a, **k):
+            self.calls.append((a, tuple(sorted(k.items()))))
+            if len(self.calls) == 1:
+                raise OSError("the delegate could not shut down")
+    for trial in range(12 if tier == "quick" else 200):
+        kind = ("timeout", "poll", "retry", "throttle")[trial % 4]
+        busy = rng.random() < 0.5
+        res = {}
+
+        def main(kind=kind, busy=busy, res=res):
+            from concurrent.futures import Future
+            base = Faulty()
+            pend = Future()
+            if busy:
+                base.submit = lambda fn, *a, **k: pend        # a delegate future that never finishes: the worker has something to watch
+            with det.atomic():
+                ex = {"timeout": lambda: Executors.with_timeout(base, 50), "poll": lambda: Executors.with_poll(base, lambda ds: None, default_interval=2),
+                      "retry": lambda: Executors.with_retry(base, max_attempts=2, sleep=1), "throttle": lambda: Executors.with_throttle(base, 1)}[kind]()
+            ex.submit(lambda: 1)
+            det.sleep(1)
+            try:
+                ex.shutdown(True)
+                res["first"] = "returned"
+            except OSError:
+                res["first"] = "raised"
+            try:
+                ex.shutdown(True)
+                res["second"] = "returned"
+            except BaseException as e:
+                if isinstance(e, det.Abort):
+                    raise
+                res["second"] = type(e).__name__
+            try:
+                ex.submit(lambda: 2)
+                res["after"] = "returned"
+            except RuntimeError as e:
+                res["after"] = str(e)
+            t0 = det.S.now
+            workers = [t for t in det.S.threads.values() if any(t.name.startswith(x) for x in PREFIX.values())]
+            det.wait_until(lambda: all(t.done for t in workers) or det.S.now > t0 + 200)
+            res["alive"] = [t.name for t in workers if not t.done]
+            res["calls"] = len(base.calls)
+        r = det.run(det.make_chooser(("random", "sticky", "pct")[trial % 3], seed * 31 + trial), main)
+        stats.add([[11, 3, trial % 4, 1 if busy else 0]], True, None, ["api:faulty-delegate-shutdown:" + kind])
+        if r.exc is not None or r.deadlock or r.hang:
+            viol("%s over a delegate whose shutdown() raises: %s" % (kind, "deadlock %s" % (r.deadlock,) if (r.deadlock or r.hang) else getattr(r, "tb", "")[-300:]),
+                 "shutdown:hang", kind)
+            continue
+        if res.get("alive"):
+            viol("%s executor over a delegate whose shutdown() raised: the layer is shut down (second shutdown(wait=True) %s, submit: %r) but its worker "
+                 "thread %s never exits" % (kind, res.get("second"), res.get("after"), res["alive"]), "shutdown:not-joined", kind)
+        if res.get("second") != "returned" or res.get("after") != MSG or res.get("calls") != 1:
+            viol("%s executor over a delegate whose shutdown() raised: second shutdown %s, submit afterwards %r, delegate shutdown calls %s"
+                 % (kind, res.get("second"), res.get("after"), res.get("calls")), "shutdown:after-failed-delegate-shutdown", kind)
